@@ -36,6 +36,38 @@ import (
 	"verif/harness/vh"
 )
 
+// B renders a byte string as a Coq list of Z; long runs of one byte are written
+// as (rep x n) (M_C26.rep), which keeps the 10 KiB boundary records cheap to parse.
+func B(b []byte) string {
+	if len(b) < 96 {
+		return vh.Bytes(b)
+	}
+	var parts []string
+	lit := 0
+	flush := func(end int) {
+		if end > lit {
+			parts = append(parts, vh.Bytes(b[lit:end]))
+		}
+	}
+	for i := 0; i < len(b); {
+		j := i
+		for j < len(b) && b[j] == b[i] {
+			j++
+		}
+		if j-i >= 48 {
+			flush(i)
+			parts = append(parts, fmt.Sprintf("rep %d %d", b[i], j-i))
+			lit = j
+		}
+		i = j
+	}
+	flush(len(b))
+	if len(parts) == 1 && !strings.HasPrefix(parts[0], "rep ") {
+		return parts[0]
+	}
+	return "(" + strings.Join(parts, " ++ ") + ")"
+}
+
 // ---------- keys (generated once per run; RSA is slow) ----------
 
 type keyPair struct {
@@ -86,9 +118,9 @@ func mkKey(t *testing.T, kind string) keyPair {
 
 func (k keyPair) nameCoq() string {
 	if k.inline {
-		return vh.App("NInline", vh.Bytes(k.digest))
+		return vh.App("NInline", B(k.digest))
 	}
-	return vh.App("NHash", vh.Bytes(k.digest))
+	return vh.App("NHash", B(k.digest))
 }
 
 // ---------- metadata ----------
@@ -122,9 +154,9 @@ func (m mval) goValue() any {
 func (m mval) coq() string {
 	switch m.kind {
 	case "string":
-		return vh.App("MString", vh.Bytes([]byte(m.s)))
+		return vh.App("MString", B([]byte(m.s)))
 	case "bytes":
-		return vh.App("MBytes", vh.Bytes(m.b))
+		return vh.App("MBytes", B(m.b))
 	case "int64", "int":
 		return vh.App("MInt", vh.Z(m.i))
 	case "bool":
@@ -183,7 +215,7 @@ func genMeta(r *mrand.Rand, n int) []metaEntry {
 }
 
 func metaCoq(m []metaEntry) string {
-	return vh.ListOf(m, func(e metaEntry) string { return vh.Pair(vh.Bytes([]byte(e.k)), e.v.coq()) })
+	return vh.ListOf(m, func(e metaEntry) string { return vh.Pair(B([]byte(e.k)), e.v.coq()) })
 }
 
 // ---------- inputs ----------
@@ -209,7 +241,7 @@ func (in inputs) coq() string {
 	if in.embed != 0 {
 		embed = "(Some " + vh.Bool(in.embed == 1) + ")"
 	}
-	return vh.App("mkInputs", vh.Bytes([]byte(in.value)), vh.ZU(in.seq), vh.ZBig(in.eolBig()), vh.Z(in.ttl),
+	return vh.App("mkInputs", B([]byte(in.value)), vh.ZU(in.seq), vh.ZBig(in.eolBig()), vh.Z(in.ttl),
 		vh.Bool(in.v1 != 2), embed, metaCoq(in.meta))
 }
 func (in inputs) opts() []ipns.Option {
@@ -232,9 +264,17 @@ func (in inputs) opts() []ipns.Option {
 func (in inputs) replay() map[string]any {
 	meta := make([]string, len(in.meta))
 	for i, e := range in.meta {
-		meta[i] = fmt.Sprintf("%q=%s", e.k, e.v.coq())
+		c := e.v.coq()
+		if len(c) > 400 {
+			c = fmt.Sprintf("%s...(%d chars; kind %s, %d bytes)", c[:60], len(c), e.v.kind, len(e.v.b)+len(e.v.s))
+		}
+		meta[i] = fmt.Sprintf("%q=%s", e.k, c)
 	}
-	return map[string]any{"key": in.key.kind, "sk_hex": in.key.skHex, "value": in.value, "seq": fmt.Sprint(in.seq),
+	value := in.value
+	if len(value) > 400 {
+		value = fmt.Sprintf("%s...(%d bytes)", value[:60], len(value))
+	}
+	return map[string]any{"key": in.key.kind, "sk_hex": in.key.skHex, "value": value, "seq": fmt.Sprint(in.seq),
 		"eol": fmt.Sprintf("%d.%09d", in.eolSec, in.eolNsec), "ttl": in.ttl, "v1": in.v1, "embed": in.embed, "meta": meta}
 }
 
@@ -340,10 +380,10 @@ func metaValCoq(mv ipns.MetadataValue, err error) string {
 	switch mv.Kind() {
 	case ipns.MetadataKindString:
 		s, _ := mv.AsString()
-		return "(Some " + vh.App("CText", vh.Bytes([]byte(s))) + ")"
+		return "(Some " + vh.App("CText", B([]byte(s))) + ")"
 	case ipns.MetadataKindBytes:
 		b, _ := mv.AsBytes()
-		return "(Some " + vh.App("CBytes", vh.Bytes(b)) + ")"
+		return "(Some " + vh.App("CBytes", B(b)) + ")"
 	case ipns.MetadataKindInt:
 		i, err := mv.AsInt()
 		if err != nil {
@@ -371,9 +411,9 @@ func instantCoq(t time.Time, err error) string {
 func cvalCoq(kind int, s string, b []byte, i int64, t bool) (string, datamodel.Node) {
 	switch kind {
 	case 0:
-		return vh.App("CText", vh.Bytes([]byte(s))), basicnode.NewString(s)
+		return vh.App("CText", B([]byte(s))), basicnode.NewString(s)
 	case 1:
-		return vh.App("CBytes", vh.Bytes(b)), basicnode.NewBytes(b)
+		return vh.App("CBytes", B(b)), basicnode.NewBytes(b)
 	case 2:
 		return vh.App("CInt", vh.Z(i)), basicnode.NewInt(i)
 	}
@@ -439,19 +479,30 @@ func TestC26(t *testing.T) {
 		if !in.key.inline {
 			sha = in.key.digest
 		}
-		oracle := vh.App("mkOracle", vh.Bytes(in.key.pkb), in.key.nameCoq(), vh.Bytes(sha), vh.Bytes([]byte(validity)),
-			instantCoq(parsed, perr), vh.Bytes(pb.GetSignatureV1()), vh.Bytes(pb.GetSignatureV2()), vh.Bytes(pb.GetData()),
+		oracle := vh.App("mkOracle", B(in.key.pkb), in.key.nameCoq(), B(sha), B([]byte(validity)),
+			instantCoq(parsed, perr), B(pb.GetSignatureV1()), B(pb.GetSignatureV2()), B(pb.GetData()),
 			vh.Bool(v2ok), vh.Bool(v1ok))
 
 		// what boxo answers after a marshal/unmarshal round trip
 		rec2, err := ipns.UnmarshalRecord(raw)
 		if err != nil {
-			st.Violate("a freshly created record does not unmarshal: "+err.Error(), "", in.replay())
+			// Coq decides: allowed only strictly above MaxRecordSize, and then with ErrRecordSize everywhere
+			rp := in.replay()
+			rp["raw_len"] = len(raw)
+			rp["unmarshal"] = classify(err)
+			if len(raw) <= 2048 {
+				rp["raw_hex"] = hex.EncodeToString(raw)
+			}
+			cs.Add(vh.App("CNewBig", in.coq(), oracle, B(raw), classify(err),
+				classify(ipns.Validator{}.Validate(string(in.key.name.RoutingKey()), raw)),
+				classify(ipns.Validate(rec, in.key.pk))), rp)
+			st.Case("B|"+in.coq(), true)
+			st.Count(fmt.Sprintf("unmarshal-refused:len=%d", len(raw)))
 			return
 		}
 		value := "None"
 		if v, err := rec2.Value(); err == nil {
-			value = "(Some " + vh.Bytes([]byte(v.String())) + ")"
+			value = "(Some " + B([]byte(v.String())) + ")"
 		}
 		seq := "None"
 		if s, err := rec2.Sequence(); err == nil {
@@ -476,11 +527,14 @@ func TestC26(t *testing.T) {
 		errVWN := ipns.ValidateWithName(rec2, in.key.name)
 		errVV := ipns.Validator{}.Validate(string(in.key.name.RoutingKey()), raw)
 		errVK := ipns.Validate(rec2, in.key.pk)
-		obs := vh.App("mkObs", vh.Bytes(raw), value, seq, instantCoq(rec2.Validity()), ttl, vh.List(metas),
+		obs := vh.App("mkObs", B(raw), value, seq, instantCoq(rec2.Validity()), ttl, vh.List(metas),
 			metaValCoq(rec2.Metadata("Sequence")), vh.Z(int64(count)), vh.Bool(pkErr == nil),
 			classify(errVWN), classify(errVV), classify(errVK))
 		rp := in.replay()
-		rp["raw_hex"] = hex.EncodeToString(raw)
+		rp["raw_len"] = len(raw)
+		if len(raw) <= 2048 {
+			rp["raw_hex"] = hex.EncodeToString(raw)
+		}
 		cs.Add(vh.App("CNew", in.coq(), vh.Bool(future), oracle, obs), rp)
 		st.Case("N|"+in.coq(), len(in.meta) > 0 || in.seq >= 1<<63 || in.eolNsec != 0)
 		st.Count("key:" + in.key.kind)
@@ -513,6 +567,84 @@ func TestC26(t *testing.T) {
 	}
 	for _, in := range corpus {
 		runNew(in, true)
+	}
+	// ---- the size boundary: marshalled size exactly MaxRecordSize-1, MaxRecordSize, MaxRecordSize+1 ----
+	// The padding (a metadata byte string, or the tail of the value path) is found by
+	// trial: create, measure, adjust (signature lengths vary for ECDSA/secp256k1).
+	sized := func(k keyPair, v1 int, padValue bool, target int) (inputs, bool) {
+		salt := uint64(0)
+		mk := func(n int) inputs {
+			in := base
+			// the salt changes the signed message (and so the length of a DER signature)
+			// without changing the size of anything else
+			in.key, in.v1, in.seq, in.eolNsec = k, v1, 1<<63+7+salt, 123456789
+			if padValue {
+				in.value = "/ipfs/bafkqaaa/" + strings.Repeat("p", n)
+				in.meta = []metaEntry{{"_note", mval{kind: "string", s: "limit"}}}
+			} else {
+				in.meta = []metaEntry{{"_pad", mval{kind: "bytes", b: bytes.Repeat([]byte{0xAB}, n)}}, {"_note", mval{kind: "string", s: "limit"}}}
+			}
+			return in
+		}
+		n := 9000
+		if padValue && v1 != 2 {
+			n = 4500 // the value is stored twice in a v1-compatible record
+		}
+		for try := 0; try < 60; try++ {
+			if try%4 == 3 {
+				salt++ // deterministic DER signatures can make the search cycle; perturb the message
+			}
+			in := mk(n)
+			p, err := path.NewPath(in.value)
+			if err != nil {
+				t.Fatal(err)
+			}
+			rec, err := ipns.NewRecord(in.key.sk, p, in.seq, time.Unix(in.eolSec, in.eolNsec), time.Duration(in.ttl), in.opts()...)
+			if err != nil {
+				t.Fatal(err)
+			}
+			raw, err := ipns.MarshalRecord(rec)
+			if err != nil {
+				t.Fatal(err)
+			}
+			d := target - len(raw)
+			if d == 0 {
+				return in, true
+			}
+			if padValue && v1 != 2 {
+				if d%2 != 0 && try > 20 {
+					return in, false // parity cannot be reached with a doubled value
+				}
+				if d/2 == 0 {
+					n += d // +-1: try anyway, signature length may differ next time
+				} else {
+					n += d / 2
+				}
+			} else {
+				n += d
+			}
+		}
+		return inputs{}, false
+	}
+	// runNew creates the record again; with randomised signature lengths the size
+	// may move by a byte or two, which only shifts the case to a neighbouring size.
+	for _, k := range []keyPair{keys[0], keys[3], keys[1], keys[2]} {
+		for _, v1 := range []int{0, 2} {
+			for _, target := range []int{ipns.MaxRecordSize - 1, ipns.MaxRecordSize, ipns.MaxRecordSize + 1} {
+				padValue := v1 == 2 && (k.kind == "ed25519" || k.kind == "ecdsa")
+				if !e.Thorough() && (k.kind == "secp256k1" || k.kind == "ecdsa") && target != ipns.MaxRecordSize {
+					continue
+				}
+				if in, ok := sized(k, v1, padValue, target); ok {
+					runNew(in, true)
+					st.Count(fmt.Sprintf("size-boundary:%s v1=%d", k.kind, v1))
+				} else if k.kind == "ed25519" || k.kind == "rsa" {
+					t.Fatalf("could not pad a %s record (v1=%d) to %d bytes", k.kind, v1, target) // fixed-length signatures: must converge
+				} else {
+					st.Count("size-boundary:not-reached")
+				}
+			}
+		}
 	}
 	// bad metadata: exactly one bad entry next to good ones
 	bad := []metaEntry{
@@ -580,7 +712,7 @@ func TestC26(t *testing.T) {
 				iv = int64(r.Uint64())
 			}
 			ct, node := cvalCoq(kind, s, b, iv, r.Intn(2) == 0)
-			terms = append(terms, vh.Pair(vh.Bytes([]byte(k)), ct))
+			terms = append(terms, vh.Pair(B([]byte(k)), ct))
 			if err := ma.AssembleKey().AssignString(k); err != nil {
 				t.Fatal(err)
 			}
@@ -595,7 +727,7 @@ func TestC26(t *testing.T) {
 		if err := dagcbor.Encode(nb.Build(), &buf); err != nil {
 			t.Fatal(err)
 		}
-		cs.Add(vh.App("CCbor", vh.List(terms), vh.Bytes(buf.Bytes())), map[string]any{"kind": "dag-cbor", "entries": terms, "enc_hex": hex.EncodeToString(buf.Bytes())})
+		cs.Add(vh.App("CCbor", vh.List(terms), B(buf.Bytes())), map[string]any{"kind": "dag-cbor", "entries": terms, "enc_hex": hex.EncodeToString(buf.Bytes())})
 		st.Case("C|"+strings.Join(terms, ";"), ne >= 2)
 		st.Count("dag-cbor-case")
 	}
